@@ -140,8 +140,10 @@ def minimise(prop, viol, budget_s):
     klass = prop.violation_class(viol)
 
     base_sched = None
-    if viol.get('via') == 'directed' and viol.get('schedule'):
-        base_sched = {'mode': 'replay', 'segments': viol['schedule']}
+    if viol.get('via') == 'directed' and viol.get('sched_spec'):
+        # re-execute through exactly the code path that found it (a 'replay' of the recorded segments
+        # runs different scheduler code in the child, which matters for allocator-dependent bugs)
+        base_sched = viol['sched_spec']
 
     def check(plan, sched_spec=None):
         if sched_spec is None:
@@ -166,6 +168,7 @@ def minimise(prop, viol, budget_s):
     if v1 is None:           # cannot happen with a deterministic harness
         small, v1, res1 = plan, v0, res0
     segments = res1['sched']['segments']
+    spec_used = base_sched if (base_sched and len(small['tasks']) > 1) else None
     if len(small['tasks']) > 1:
         def fails_sched(p, segs):
             v, _ = check(p, {'mode': 'replay', 'segments': segs})
@@ -173,11 +176,14 @@ def minimise(prop, viol, budget_s):
         better = shrink_schedule(small, segments, fails_sched, budget_s=budget_s * 0.3)
         if better is not None:
             segments = better
+            spec_used = None
             v2, _ = check(small, {'mode': 'replay', 'segments': segments})
             if v2 is not None:
                 v1 = v2
-        else:
+        elif spec_used is None:
             segments = None   # recorded segments did not reproduce; replay re-explores by seed
+    if spec_used is not None:
+        v1 = dict(v1, schedule_spec=spec_used)
     return small, segments, v1, tries
 
 
@@ -192,7 +198,7 @@ def write_replay(prop, viol, small, segments, vmin, tries, base, tier):
         'observed': describe(vmin.get('observed')), 'reference': describe(vmin.get('reference')),
         'reference_plan': vmin.get('reference_plan'),
         'reference_request': vmin.get('reference_request', vmin.get('reference_plan')),
-        'plan': small, 'schedule': segments,
+        'plan': small, 'schedule': segments, 'schedule_spec': vmin.get('schedule_spec'),
         'original_ops': sum(len(t['ops']) for t in viol['plan']['tasks']),
         'minimised_ops': sum(len(t['ops']) for t in small['tasks']),
         'shrink_tries': tries, 'source_hash': source_hash(), 'src_root': SRC_ROOT,
@@ -209,7 +215,9 @@ def replay_file(prop, path, quiet=False):
         doc = json.load(f)
     plan = doc['plan']
     sched = None
-    if doc.get('schedule') and len(plan['tasks']) > 1:
+    if doc.get('schedule_spec') and len(plan['tasks']) > 1:
+        sched = doc['schedule_spec']        # a directed schedule: base segments + victim window
+    elif doc.get('schedule') and len(plan['tasks']) > 1:
         sched = {'mode': 'replay', 'segments': doc['schedule']}
     refs = prop.make_refs()
     res = execute_isolated(prop, plan, sched, timeout=300, label='replay')
